@@ -3,6 +3,7 @@ package rockredis
 import (
 	"bytes"
 	"errors"
+	"strconv"
 	"strings"
 
 	"github.com/tidwall/gjson"
@@ -70,12 +71,39 @@ func encodeJSONStopKey(table []byte, key []byte) []byte {
 	return buf
 }
 
+// checkJSONPathIndex refuses a path with an array index that no document within the json
+// size limit can hold: sjson pads a missing index with that many nulls before any size
+// check can see the result.
+func checkJSONPathIndex(path string) error {
+	parts := strings.Split(path, ".")
+	for i, part := range parts {
+		if i > 0 && strings.HasSuffix(parts[i-1], "\\") {
+			// escaped dot, not a path separator
+			continue
+		}
+		n, err := strconv.ParseUint(part, 10, 64)
+		if err != nil {
+			if ne, ok := err.(*strconv.NumError); ok && ne.Err == strconv.ErrRange {
+				return errValueSize
+			}
+			continue
+		}
+		if n > uint64(MaxValueSize*2) {
+			return errValueSize
+		}
+	}
+	return nil
+}
+
 func (db *RockDB) jSetPath(jdata []byte, path string, value []byte) ([]byte, error) {
 	if len(path) == 0 {
 		// for set path it will change the value, so we need return copy
 		v := make([]byte, len(value))
 		copy(v, value)
 		return v, nil
+	}
+	if err := checkJSONPathIndex(path); err != nil {
+		return nil, err
 	}
 	return sjson.SetRawBytes(jdata, path, value)
 }
